@@ -44,6 +44,9 @@ type Case struct {
 	Via       string  `json:"via,omitempty"` // reader | writeto
 	Discard   bool    `json:"discard,omitempty"`
 	Offset    int     `json:"offset,omitempty"` // input frames are views at this offset
+	// Damage: before reading back, one spill file is replaced by a link to
+	// itself, so that opening it fails (a read-back fault).
+	Damage bool `json:"damage,omitempty"`
 }
 
 func typeOf(c *Case) spec.Type {
@@ -195,6 +198,7 @@ func checkRows(c *Case, t spec.Type, got []spec.Row, all []spec.Row, sorted bool
 }
 
 func runCase(c *Case) (o outcome) {
+	compkit.Journal(c)
 	o.probes = map[string]int{}
 	defer func() {
 		if e := recover(); e != nil {
@@ -305,7 +309,42 @@ func runCase(c *Case) (o outcome) {
 				return
 			}
 		} else {
+			damaged := false
+			if c.Damage {
+				// Fault at read-back time: a spill file that cannot be opened.
+				for _, d := range spillDirs() {
+					if files, _ := filepath.Glob(filepath.Join(d, "*", "*", "*", "spill-*")); len(files) > 0 {
+						f := files[int(c.Sched)%len(files)]
+						if os.Remove(f) == nil && os.Symlink(filepath.Base(f), f) == nil {
+							damaged = true
+							o.probes["spill_file_damaged"]++
+						}
+						break
+					}
+				}
+			}
 			var got []spec.Row
+			if damaged {
+				var err error
+				if c.Via == "writeto" {
+					var buf bytes.Buffer
+					_, err = comb.WriteTo(ctx, sliceio.NewEncodingWriter(&buf))
+				} else {
+					var rd sliceio.Reader
+					if rd, err = comb.Reader(); err == nil {
+						_, err = interp.ScanAll(ctx, t, sliceio.NewScanner(interp.SliceType(t), sliceio.NopCloser(rd)))
+					}
+				}
+				if err == nil {
+					o.class, o.detail = "damage-not-reported", "a spill file could not be opened, yet reading the combiner back succeeded"
+					return
+				}
+				o.probes["readback_error_reported"]++
+				if n := len(spillDirs()); n > before {
+					o.class, o.detail = "spill-files-left", fmt.Sprintf("%d spill directories remain after a failed read-back: %v", n-before, spillDirs())
+				}
+				return
+			}
 			if c.Via == "writeto" {
 				var buf bytes.Buffer
 				n, err := comb.WriteTo(ctx, sliceio.NewEncodingWriter(&buf))
@@ -364,6 +403,7 @@ func genCase(r compkit.Rand) *Case {
 		c.Target = r.Pick(1, 1, 2, 3, 8, 100, 100000)
 		c.Via = []string{"reader", "writeto"}[r.Intn(2)]
 		c.Discard = r.Chance(0.1)
+		c.Damage = !c.Discard && r.Chance(0.15)
 	}
 	if kt := c.KT; kt != "kkv2" {
 		if m := spec.MaxCard(kt); c.Card > m {
